@@ -134,6 +134,7 @@ static void verif_io_dump(void)
 #define verif_io_event(kind, actor, slot, pos) do { } while (0)
 #define verif_io_dump() do { } while (0)
 #endif
+void (*io_flush)(struct snapraid_io* io) = 0;
 void (*io_refresh)(struct snapraid_io* io) = 0;
 
 
@@ -310,6 +311,12 @@ static void io_write_next_mono(struct snapraid_io* io, block_off_t blockcur, int
 		writer_error[i] = io->writer_error[i];
 		io->writer_error[i] = 0;
 	}
+}
+
+static void io_flush_mono(struct snapraid_io* io)
+{
+	/* nothing to do, the writes are done synchronously */
+	(void)io;
 }
 
 static void io_refresh_mono(struct snapraid_io* io)
@@ -494,6 +501,7 @@ static struct snapraid_task* io_writer_step(struct snapraid_worker* worker, int 
 
 			/* get the new working task */
 			worker->index = next_index;
+			worker->is_idle = 0;
 			task = &worker->task_map[worker->index];
 
 			/* if the just completed task is at this index */
@@ -513,6 +521,12 @@ static struct snapraid_task* io_writer_step(struct snapraid_worker* worker, int 
 		if (io->done) {
 			thread_mutex_unlock(&io->io_mutex);
 			return 0;
+		}
+
+		/* all the scheduled writes are complete, notify who is waiting in io_flush() */
+		if (!worker->is_idle) {
+			worker->is_idle = 1;
+			thread_cond_signal(&io->write_done);
 		}
 
 		/* otherwise wait for a write_sched event */
@@ -609,6 +623,33 @@ static void io_write_next_thread(struct snapraid_io* io, block_off_t blockcur, i
 
 	/* signal all the workers that there is a new pending task */
 	thread_cond_broadcast_and_unlock(&io->write_sched, &io->io_mutex);
+}
+
+static void io_flush_thread(struct snapraid_io* io)
+{
+	/* the synchronization is protected by the io mutex */
+	thread_mutex_lock(&io->io_mutex);
+
+	while (1) {
+		unsigned i;
+
+		/* search for a writer with a write still queued or in progress */
+		for (i = 0; i < io->writer_max; ++i) {
+			struct snapraid_worker* worker = &io->writer_map[i];
+
+			if ((worker->index + 1) % io->io_max != io->writer_index || !worker->is_idle)
+				break;
+		}
+
+		/* if all the writers have finished */
+		if (i == io->writer_max)
+			break;
+
+		/* otherwise wait for a write_done event */
+		thread_cond_wait(&io->write_done, &io->io_mutex);
+	}
+
+	thread_mutex_unlock(&io->io_mutex);
 }
 
 static void io_refresh_thread(struct snapraid_io* io)
@@ -954,6 +995,7 @@ static void io_start_thread(struct snapraid_io* io,
 		struct snapraid_worker* worker = &io->writer_map[i];
 
 		worker->index = io->io_max - 1;
+		worker->is_idle = 0;
 
 		thread_create(&worker->thread, io_writer_thread, worker);
 	}
@@ -1149,6 +1191,7 @@ void io_init(struct snapraid_io* io, struct snapraid_state* state,
 		io_read_next = io_read_next_thread;
 		io_write_preset = io_write_preset_thread;
 		io_write_next = io_write_next_thread;
+		io_flush = io_flush_thread;
 		io_refresh = io_refresh_thread;
 		io_data_read = io_data_read_thread;
 		io_parity_read = io_parity_read_thread;
@@ -1167,6 +1210,7 @@ void io_init(struct snapraid_io* io, struct snapraid_state* state,
 		io_read_next = io_read_next_mono;
 		io_write_preset = io_write_preset_mono;
 		io_write_next = io_write_next_mono;
+		io_flush = io_flush_mono;
 		io_refresh = io_refresh_mono;
 		io_data_read = io_data_read_mono;
 		io_parity_read = io_parity_read_mono;
